@@ -202,6 +202,9 @@ func (met *cff2CharstringHandler) setVSIndex(index int) error {
 	k := int32(len(vars.RegionIndexes)) // number of regions
 	met.scalars = append(met.scalars[:0], make([]float32, k)...)
 	for i, regionIndex := range vars.RegionIndexes {
+		if int(regionIndex) >= len(met.vars.VariationRegionList.VariationRegions) {
+			return fmt.Errorf("invalid region index %d in variation store", regionIndex)
+		}
 		region := met.vars.VariationRegionList.VariationRegions[regionIndex]
 		met.scalars[i] = region.Evaluate(met.coords)
 	}
